@@ -35,6 +35,9 @@ def parseLinkDestination(string: str, pos: int, maximum: int) -> _Result:
                 return result
 
             if code == 0x5C and pos + 1 < maximum:  # \
+                if charCodeAt(string, pos + 1) == 0x0A:
+                    # a line ending cannot be escaped
+                    return result
                 pos += 2
                 continue
 
@@ -57,8 +60,14 @@ def parseLinkDestination(string: str, pos: int, maximum: int) -> _Result:
             break
 
         if code == 0x5C and pos + 1 < maximum:
-            if charCodeAt(string, pos + 1) == 0x20:
+            nextCode = charCodeAt(string, pos + 1)
+            if nextCode == 0x20:
                 break
+            if nextCode is not None and (nextCode < 0x20 or nextCode == 0x7F):
+                # control characters (e.g. a line ending) cannot be escaped:
+                # the backslash is literal and the destination ends after it
+                pos += 1
+                continue
             pos += 2
             continue
 
